@@ -95,15 +95,15 @@ Section Players.
       (forall i, (i < k)%nat -> U i (fst rb i j)) /\
       xor_upto k (fun i => Z.odd (snd rb i j)) = false.
 
-  Lemma open_card_encodes (T : Z) : encodes T (create_open_card ky T).
+  Lemma open_card_encodes (T : Z) : encodes T (open_card_qr ky T).
   Proof.
     intros j Hj. split.
-    - intros i Hi. unfold create_open_card. destruct (Nat.eqb_spec i 0) as [->|]; [destruct (Z.testbit T _)|]; auto.
+    - intros i Hi. unfold open_card_qr. destruct (Nat.eqb_spec i 0) as [->|]; [destruct (Z.testbit T _)|]; auto.
     - rewrite (xor_upto_ext k _ (fun i => if Nat.eqb i 0 then Z.testbit T (Z.of_nat j) else false)).
       + rewrite xor_upto_single by assumption.
         rewrite (xor_upto_ext k _ (fun _ => false)); [rewrite xor_upto_false; apply xorb_false_r|].
         intros i _. destruct (Nat.eqb i 0); reflexivity.
-      + intros i _. unfold create_open_card. destruct (Nat.eqb_spec i 0) as [->|]; [|apply N_one].
+      + intros i _. unfold open_card_qr. destruct (Nat.eqb_spec i 0) as [->|]; [|apply N_one].
         destruct (Z.testbit T (Z.of_nat j)); [apply N_y|apply N_one].
   Qed.
 
@@ -138,7 +138,7 @@ Section Players.
      residuosity bits of its row: the card opens to T *)
   Theorem tmcg_open_ok (T : Z) (chain : list (matrix * matrix)) : 0 <= T < 2 ^ Z.of_nat w ->
     Forall good_secret chain ->
-    type_of_card k w (self_bits nqr (mask_chain km ky (create_open_card ky T) chain)) = T.
+    type_of_card k w (self_bits nqr (mask_chain km ky (open_card_qr ky T) chain)) = T.
   Proof.
     intros HT Hs. apply encodes_type; [assumption|]. apply mask_chain_encodes; [assumption|apply open_card_encodes].
   Qed.
